@@ -472,7 +472,36 @@ ROLES = ['assigned_only', 'assigned_only_in_loop', 'read_only_global', 'paramete
          'nested_only_decorator', 'nested_only_keyword_value', 'nested_keyword_name', 'lambda_only_value', 'class_body_only_value',
          'comprehension_only_value',
          # requests separated by scopes with different user names
-         'outer_plain_loop_then_nested_local_loop', 'outer_plain_while_then_nested_local_while', 'sibling_nested_functions']
+         'outer_plain_loop_then_nested_local_loop', 'outer_plain_while_then_nested_local_while', 'sibling_nested_functions',
+         # the word is a function-level user name (local / parameter / free) read in an OUTER comprehension AFTER an inner
+         # comprehension that reuses it as its own target; position (element / condition / later iterable) and the outer
+         # comprehension kind (list / set / generator / dict) are drawn per group; the snippet's for loop with break, continue
+         # and branches makes the converter request itr, break_, continue_, loop_body, get_state, if_body, ... in the same function
+         'inner_comp_target_outer_read:local', 'inner_comp_target_outer_read:parameter', 'inner_comp_target_outer_read:free']
+COMP_POSITIONS = ('element', 'condition', 'later_iterable')
+COMP_KINDS = ('list', 'set', 'generator', 'dict')
+
+
+def _inner_comp_snippet(word, position, kind, inner_kind, loop):
+    inner = ('sum(%s for %s in kq_cell)' if inner_kind == 'generator' else 'sum([%s for %s in kq_cell])') % (word, word)
+    if position == 'element':
+        key, elt, gens = 'len(kq_cell)', '%s * %s' % (inner, word), 'for kq_cell in kq_row'
+    elif position == 'condition':
+        key, elt, gens = 'len(kq_cell)', 'len(kq_cell) + 1', 'for kq_cell in kq_row if %s < %s + 100' % (inner, word)
+    else:
+        key, elt = 'kq_a * 10 + kq_b', 'kq_b + kq_a'
+        gens = 'for kq_a in [%s for kq_cell in kq_row] for kq_b in range(min(abs(%s), 2))' % (inner, word)
+    comp = {'list': '[%s %s]' % (elt, gens), 'set': 'sorted({%s %s})' % (elt, gens), 'generator': 'sum(%s %s)' % (elt, gens),
+            'dict': 'sorted({%s: %s %s}.items())' % (key, elt, gens)}[kind]
+    if loop == 'for':
+        head = "for kq_row in kq_rows:\n"
+        tail = ""
+    else:
+        head = "kq_n = 0\nwhile kq_n < len(kq_rows):\n    kq_row = kq_rows[kq_n]\n    kq_n += 1\n"
+        tail = ""
+    return ("kq_rows = [[(1, 2), (3,)], [(4, 5)]]\nkq_out = []\n" + head +
+            "    if len(kq_row) > 5:\n        break\n    if len(kq_row) > 4:\n        continue\n"
+            "    kq_out = kq_out + [%s]\n" % comp + tail + "tr('ict', kq_out)")
 
 NESTED_ONLY = {
     # role: (statements at the START of the function binding the word, statements inserted later that mention it only in a nested scope)
@@ -504,7 +533,8 @@ SEPARATED = {
 READ_ROLES = {'read_only_global', 'parameter', 'local', 'global_var', 'closure_free_var', 'closure_nonlocal',
               'nested_function_called', 'loop_target_read', 'loop_var_modified', 'two_locals_numbered',
               'local_in_nested_def_loop', 'attribute_name', 'keyword_name', 'bound_with_star_call', 'bound_with_keyword_call',
-              'parameter_with_star_and_keyword_call', 'nonlocal_in_nested'} | set(NESTED_ONLY)
+              'parameter_with_star_and_keyword_call', 'nonlocal_in_nested', 'inner_comp_target_outer_read:local',
+              'inner_comp_target_outer_read:parameter', 'inner_comp_target_outer_read:free'} | set(NESTED_ONLY)
 
 
 def make_variant(prog_json, role, word, rng):
@@ -604,6 +634,23 @@ def make_variant(prog_json, role, word, rng):
         head, later = NESTED_ONLY[role]
         ok = _insert(fn, _stmt(later.replace('{W}', word)), rng)
         _insert(fn, _stmt(head.replace('{W}', word)), rng, at_start=True)
+    elif role.startswith('inner_comp_target_outer_read:'):
+        binding = role.split(':')[1]
+        position = COMP_POSITIONS[rng.randrange(len(COMP_POSITIONS))]
+        kind = COMP_KINDS[rng.randrange(len(COMP_KINDS))]
+        inner_kind = ('generator', 'list')[rng.randrange(2)]
+        loop = ('for', 'for', 'while')[rng.randrange(3)]
+        case['variant'] = '%s/%s/inner-%s/%s' % (position, kind, inner_kind, loop)
+        if binding == 'parameter':
+            ints = [q for q in params if q in ('a', 'b', 'c')]
+            if not ints:
+                return None
+            _Rename(ints[rng.randrange(len(ints))], word).visit(fn)
+        ok = _insert(fn, _stmt(_inner_comp_snippet(word, position, kind, inner_kind, loop)), rng)
+        if binding == 'local':
+            _insert(fn, _stmt('%s = 3' % word), rng, at_start=True)
+        elif binding == 'free':
+            tree.body[fidx:fidx] = _stmt('%s = 3' % word)
     elif role in SEPARATED:
         ok = _insert(fn, _stmt(SEPARATED[role].replace('{W}', word)), rng)
     elif role == 'bound_with_star_call':
